@@ -349,8 +349,16 @@ impl C08 {
     // ------------------------------------------------------------------ kind B/C: token soup, fresh or long-lived interpreter
     fn soup(&self, rng: &mut Rng) -> String {
         let mut s = String::new();
-        for _ in 0..1 + rng.below(if small() { 8 } else { 30 }) {
-            match rng.below(24) {
+        // a source is built completely before any of it runs, and one bad token rejects all of it: half of the soups are
+        // short and two thirds avoid the tokens that cannot build (so that what the others contain also gets executed)
+        let runnable = rng.chance(2, 3);
+        let n = if rng.flip() { 1 + rng.below(4) } else { 1 + rng.below(if small() { 8 } else { 30 }) };
+        for _ in 0..n {
+            let mut kind = rng.below(26);
+            while runnable && matches!(kind, 12 | 14 | 16 | 17 | 18) {
+                kind = rng.below(26);
+            }
+            match kind {
                 0..=9 => {
                     // words whose argument is an allocation size only appear with a modest literal size in soups
                     // (fragments below); with whatever happens to be on the stack they would not be "modest"
@@ -373,6 +381,13 @@ impl C08 {
                         for _ in 0..1 + rng.below(6) {
                             t.push_str(rng.pick_str(&["a", "F", "0", "g", " ", "\u{a0}", "\u{2003}", "\u{e9}", "=", "#"]));
                         }
+                        if rng.chance(1, 3) {
+                            // Z85-shaped text: whole five-letter groups, the all-marker group, overflowing groups
+                            t.clear();
+                            for _ in 0..1 + rng.below(4) {
+                                t.push_str(rng.pick_str(&["Hello", "World", "#####", "%nSc1", "%%%%%", "00000", "0000#", "####0", "Hel", "$0000"]));
+                            }
+                        }
                         s.push_str(&format!("\"{}\" {}", t, rng.pick_str(&["hex>bitstr", "base32>", "base64>", "zero85>", "base32hex>", "str>number", ">bitstr"])))
                     }
                 }
@@ -383,6 +398,22 @@ impl C08 {
                 20 => s.push_str(rng.pick_str(&["^hex", "^bin", "^oct", "^dec", "true fmt/prefix", "true fmt/upcase", "true fmt/tags", "nil fmt/tags"])),
                 21 => s.push_str(rng.pick_str(&["u8", "16 bits", "8 seek", "18446744073709551615 uint", "0 int", "129 int", "remain", "offset", "input", "dump", "0 dump-at", "99 dump-at", "|00| find", "|12| magic", "cstr", "nulbytestr", "close-bitstr", "open-bitstr"])),
                 22 => s.push_str(rng.pick_str(&["depth", "dup", "drop", "swap", "over", "rot", "print", "println", ".s", "newline"])),
+                23 => {
+                    // the built-in variables are ordinary variables: anything can be stored into them
+                    let v = rng.pick_str(&["0", "-1", "18446744073709551615", "18446744073709551616", "9223372036854775807", "170141183460469231731687303715884105727", "-170141183460469231731687303715884105728", "nil", "\"s\"", "|FF|", "[ 1 ]", "1.5"]).to_string();
+                    let var = rng.pick_str(&["offset", "output-length", "input", "output", "big?"]);
+                    let then = rng.pick_str(&["|ff| emit", "8 bits", "u8", "remain", "dump", "|0F| find", "open-bitstr", "close-bitstr", "\"ab\" emit", "output-length", "1 u8!", "cstr", "0 seek"]);
+                    s.push_str(&format!("{} ! {} {}", v, var, then))
+                }
+                24 => {
+                    let v = rng.pick_str(&["170141183460469231731687303715884105727", "-170141183460469231731687303715884105728", "18446744073709551615", "-1", "nil", "\"s\"", "1.5"]).to_string();
+                    s.push_str(&match rng.below(4) {
+                        0 => format!("enum E{} {} = A{} : B{} endenum", rng.below(3), v, rng.below(3), rng.below(3)),
+                        1 => format!("enum E{} : A {} = B : C : D endenum", rng.below(3), v),
+                        2 => format!("enum E{} {} {} = A endenum", rng.below(3), v, v),
+                        _ => format!("enum E{} {} : A endenum", rng.below(3), v),
+                    })
+                }
                 _ => s.push_str(rng.pick_str(&["1 0 /", "1 0 rem", "-170141183460469231731687303715884105728 -1 /", "-170141183460469231731687303715884105728 abs", "[ 1 ] -9223372036854775808 nth", "\"ff\" ^hex str>number", "1 128 bsl", "1 -1 bsr", "99999 random-bits drop", "1 65536 int! drop", "-1 3 uint! drop", "3 4 d2-resize", "0 0 d2-resize", "7 random-bits"])),
             }
             s.push_str(rng.pick_str(&[" ", " ", " ", "\n", "\t", "\r\n", ""]));
@@ -425,6 +456,16 @@ impl C08 {
                 }
                 16 => out.push_str(rng.pick_str(&["; ", "#) ", "] ", "then ", "loop ", "^} ", "} ", "endenum ", "immediate ", "break ", "else "])),
                 17 => out.push_str(rng.pick_str(&["depth ", "drop ", "+ ", "collect ", "I ", "J ", "exit ", "call ", "doc\" d\" ", "\\( c \\)", "\\ c\n"])),
+                18 => {
+                    // a local (or let binding) whose declaration is skipped at run time, read afterwards
+                    let n = rng.pick_str(NAMES).to_string();
+                    out.push_str(&match rng.below(4) {
+                        0 => format!("false if 1 local {} then {} ", n, n),
+                        1 => format!("0 0 do 2 local {} loop {} ", n, n),
+                        2 => format!("nil case 1 of 3 local {} endof endcase {} ", n, n),
+                        _ => format!("false if [ 1 ] let [ {} ] then {} ", n, n),
+                    });
+                }
                 _ => out.push_str(rng.pick_str(&["1 ", "2 "])),
             }
         }
@@ -439,7 +480,13 @@ impl C08 {
 
     fn soup_case(&mut self, idx: u64, obs: &mut Obs, long_lived: bool) {
         let mut rng = Rng::for_case("C08s", self.seed, idx);
-        let src = if rng.chance(1, 3) {
+        let src = if !small() && rng.chance(1, 400) {
+            // a failure far to the right on a very long line (error columns beyond 2^16), or far down a long text
+            let n = *rng.pick(&[65_530usize, 65_535, 65_536, 65_537, 70_000, 140_000]);
+            let pad = if rng.flip() { " ".repeat(n) } else { "\n".repeat(n) };
+            obs.count("soups:failure-far-right-or-far-down");
+            format!("{}{}", pad, rng.pick_str(&["no-such-word", "1 0 /", "12x", "then", "\"unterminated", "nil 1 +"]))
+        } else if rng.chance(1, 3) {
             let mut t = String::new();
             Self::defsoup_items(&mut rng, 0, &mut t);
             obs.count("soups:defining-words");
@@ -545,7 +592,11 @@ impl Monitor for C08 {
             0 | 1 => format!("word x argument classes, word {:?}", self.words[(idx / 4) as usize % self.words.len()].0),
             _ => {
                 let mut rng = Rng::for_case("C08s", self.seed, idx);
-                let src = if rng.chance(1, 3) {
+                let src = if !small() && rng.chance(1, 400) {
+                    let n = *rng.pick(&[65_530usize, 65_535, 65_536, 65_537, 70_000, 140_000]);
+                    let pad = if rng.flip() { " ".repeat(n) } else { "\n".repeat(n) };
+                    format!("{}{}", pad, rng.pick_str(&["no-such-word", "1 0 /", "12x", "then", "\"unterminated", "nil 1 +"]))
+                } else if rng.chance(1, 3) {
                     let mut t = String::new();
                     Self::defsoup_items(&mut rng, 0, &mut t);
                     t
